@@ -6,10 +6,19 @@ Correspondence (flavour D):
      are compared with the model (which enumerates the same space inside Coq).
   B. random interleavings of append / next / has_more on one manager vs the mgr state machine.
   C. stan_epochs on a border grid + random arguments vs the model; EpochManager on its output;
-     EngineBuilder's jit chunk length (captured from the Engine constructor) vs chunk_len.
+     EngineBuilder's jit chunk length (captured from the Engine constructor) vs chunk_len.  Every call is
+     followed by an in-place edit of the returned list / EpochConfig objects and a second call with
+     identical arguments, which must again return the model's value (pure function of its arguments).
+  D. EngineBuilder.set_epochs / set_duration + build(): the schedule the builder holds and the chunk
+     length it hands to the Engine vs builder_set_epochs / builder_set_duration; strata with large
+     common divisors (1001, 1125, 1500, 2250, 3006, 4096, 5000, ...), mixed epoch types, invalid schedules.
+  E. EpochState: to_state / advance_time / time_left vs the model.
+  F. a few real engines (RWKernel) built from large-gcd schedules sample all epochs; number of
+     posterior draws vs the model's chunk loop.
 """
 from __future__ import annotations
 
+import inspect
 import itertools
 import logging
 import math
@@ -21,7 +30,7 @@ from .common import zlit, lst, blit, natlit
 
 HEADER = """From Coq Require Import List ZArith Bool.
 Import ListNotations.
-From LV Require Import Goose.Epoch Goose.EpochProofs Goose.Warmup Goose.CorrC16.
+From LV Require Import Goose.Epoch Goose.EpochProofs Goose.Warmup Goose.EpochBuilder Goose.CorrC16.
 Open Scope Z_scope.
 """
 
@@ -71,14 +80,15 @@ def part_a(ctx):
 
 
 def emit_a(ctx, a):
-    # observed: list of (letter indices, [(nth, t_before)]) in lexicographic enumeration order per length
+    # observed: list of (letter indices, [(nth, t_before, time, time_in_epoch)]) in lexicographic enumeration order per length
     obs = lst(
-        "(" + lst(natlit(i) for i in seq) + ", " + lst(f"({natlit(s[0])}, {zlit(s[1])})" for s in states) + ")"
+        "(" + lst(natlit(i) for i in seq) + ", "
+        + lst(f"({natlit(s[0])}, {zlit(s[1])}, {zlit(s[2])}, {zlit(s[3])})" for s in states) + ")"
         for seq, states in a["accepted"])
     alpha = lst(cfg_lit(*x) for x in a["alpha"])
     txt = HEADER + f"""
 Definition alphabet : list econf := {alpha}.
-Definition observed : list (list nat * list (nat * Z)) := {obs}.
+Definition observed : list (list nat * list (nat * Z * Z * Z)) := {obs}.
 Lemma shard_ok : model_accepted alphabet {natlit(a['L'])} = observed.
 Proof. vm_compute. reflexivity. Qed.
 """
@@ -257,6 +267,10 @@ def stan_args(ctx, rnd):
     for thw in [2, 3, 4, 6, 7, 8, 9, 10, 11, 12, 13, 24, 25]:
         args.append((1000, 1000, 75, 50, 25, 1, thw))
         args.append((200 + thw, 30, 30 + thw, 26, 25, 3, thw))
+    # windows that are all multiples of a large number: the builder's chunk length gets large
+    for g in BIG_GCDS:
+        for (ki, kt, kb, extra, kp) in [(1, 1, 1, 0, 2), (1, 2, 1, 3, 1), (2, 1, 1, 9, 3)]:
+            args.append(((ki + kt + kb + extra) * g, kp * g, ki * g, kt * g, kb * g, rnd.choice([1, g, kp * g]), 1))
     n = 300 if ctx.quick else 4000
     for _ in range(n):
         w = rnd.choice([rnd.randint(15, 60), rnd.randint(20, 400), rnd.randint(100, 5000)])
@@ -270,27 +284,99 @@ def stan_args(ctx, rnd):
     return args
 
 
-class _Spy(Exception):
-    pass
+BIG_GCDS = [1001, 1125, 1500, 2250, 3006, 4096, 5000]
 
 
-def builder_chunk(epochs):
-    """EngineBuilder.build() with the Engine constructor replaced by a spy: returns jitted_sample_duration"""
+def snap(eps):
+    return [(int(e.type), int(e.duration), int(e.thinning)) for e in eps]
+
+
+def builder_observe(setter):
+    """EngineBuilder: setter(builder) installs the schedule (set_epochs / set_duration); build() runs with
+    the Engine constructor replaced by a spy.  Returns ("ok", schedule held by the builder, schedule handed
+    to the Engine, jitted_sample_duration) or ("rejected", text) when the setter raises."""
     import liesel.goose as gs
     import liesel.goose.builder as gb
     got = {}
+    sig = inspect.signature(gb.Engine.__init__)
 
-    def spy(**kw):
-        got.update(kw)
+    def spy(*a, **kw):
+        got.update(sig.bind(None, *a, **kw).arguments)
         return None
 
     b = gs.EngineBuilder(seed=1, num_chains=1)
-    b.set_epochs(epochs)
+    try:
+        setter(b)
+    except Exception as ex:     # RuntimeError (manager) / ValueError (stan_epochs); the class is not compared
+        return ("rejected", f"{type(ex).__name__}: {ex}")
+    held = snap(b.epochs)
     b.set_model(gs.DictInterface(lambda s: 0.0))
     b.set_initial_values({"x": 0.0})
     with mock.patch.object(gb, "Engine", spy):
         b.build()
-    return int(got["jitted_sample_duration"])
+    return ("ok", held, snap(got["epoch_configs"]), int(got["jitted_sample_duration"]))
+
+
+def builder_chunk(epochs):
+    """EngineBuilder.set_epochs + build(): the jitted_sample_duration handed to the Engine"""
+    r = builder_observe(lambda b: b.set_epochs(epochs))
+    if r[0] != "ok":
+        raise RuntimeError(r[1])
+    return r[3]
+
+
+# in-place edits a caller may apply to a schedule it received from stan_epochs
+LIST_OPS = ["append_post", "append_post", "pop", "insert", "clear", "reverse", "none"]
+
+
+def rand_edit(rnd):
+    e = {"list_op": rnd.choice(LIST_OPS), "idx": rnd.randint(0, 8), "ddur": rnd.choice([0, 1, 7, -1, 100]),
+         "dthin": rnd.choice([0, 0, 1, 3]), "type": rnd.choice([None, None, 3, 4])}
+    if e["ddur"] == 0 and e["dthin"] == 0 and e["type"] is None and e["list_op"] in ("none", "reverse"):
+        e["ddur"] = 7
+    return e
+
+
+def apply_edit(eps, e):
+    """edit the list and one of its EpochConfig objects in place (the list belongs to the caller)"""
+    EpochConfig, _, EpochType, _ = _imports()
+    if eps:
+        o = eps[e["idx"] % len(eps)]
+        o.duration += e["ddur"]
+        o.thinning += e["dthin"]
+        if e["type"] is not None:
+            o.type = EpochType(e["type"])
+    op = e["list_op"]
+    if op == "append_post":
+        eps.append(EpochConfig(EpochType.POSTERIOR, 50, 1, None))
+    elif op == "pop" and eps:
+        eps.pop(e["idx"] % len(eps))
+    elif op == "insert":
+        eps.insert(e["idx"] % (len(eps) + 1), EpochConfig(EpochType.BURNIN, 3, 1, None))
+    elif op == "clear":
+        eps.clear()
+    elif op == "reverse":
+        eps.reverse()
+
+
+def stan_twice(a, edit):
+    """stan_epochs(*a); in-place edit of the returned list / objects; stan_epochs(*a) again.
+    Returns (fresh unedited copy of the first schedule or None, snapshot of the first result taken
+    before the edit, snapshot of the second result)"""
+    EpochConfig, _, EpochType, stan_epochs = _imports()
+    try:
+        eps = stan_epochs(*a)
+        res = snap(eps)
+    except Exception:      # documented: ValueError; any other exception class is a rejection too
+        return None, None, None
+    if edit is not None:
+        apply_edit(eps, edit)       # the list belongs to the caller
+    try:
+        res2 = snap(stan_epochs(*a))
+    except Exception:
+        res2 = None
+    clean = [EpochConfig(EpochType(t), d, th, None) for (t, d, th) in res]
+    return clean, res, res2
 
 
 def builder_chunk_safe(epochs):
@@ -306,12 +392,8 @@ def part_c(ctx, rnd):
     cases = []
     nchunk = 0
     for a in stan_args(ctx, rnd):
-        w, p, i, t, b, thp, thw = a
-        try:
-            eps = stan_epochs(w, p, i, t, b, thp, thw)
-            res = [(int(e.type), int(e.duration), int(e.thinning)) for e in eps]
-        except Exception:      # documented: ValueError; any other exception class is a rejection too
-            eps, res = None, None
+        edit = rand_edit(rnd)
+        eps, res, res2 = stan_twice(a, edit)
         acc, chunk = None, None
         if eps is not None:
             try:
@@ -319,10 +401,11 @@ def part_c(ctx, rnd):
                 acc = True
             except RuntimeError:
                 acc = False
-            if acc and nchunk < (40 if ctx.quick else 400):
+            big = min(a[2:5]) >= 1000
+            if acc and (big or nchunk < (40 if ctx.quick else 400)):
                 chunk = builder_chunk_safe(eps)
-                nchunk += 1
-        cases.append({"part": "C", "args": a, "res": res, "accepted": acc, "chunk": chunk})
+                nchunk += 0 if big else 1
+        cases.append({"part": "C", "args": a, "res": res, "edit": edit, "res2": res2, "accepted": acc, "chunk": chunk})
     # chunk length on random valid schedules (not from stan_epochs)
     for _ in range(40 if ctx.quick else 400):
         cs, post = [(0, 1, 1)], False
@@ -341,6 +424,10 @@ def part_c(ctx, rnd):
     ctx.hist("C.stan_value_error", sum(1 for c in nc if c["res"] is None))
     ctx.hist("C.stan_result_rejected_by_manager", sum(1 for c in nc if c["accepted"] is False))
     ctx.hist("C.chunk_lengths_observed", sum(1 for c in cases if c.get("chunk") is not None))
+    ctx.hist("C.repeated_call_after_inplace_edit", sum(1 for c in nc if c["res"] is not None))
+    for op in sorted(set(LIST_OPS)):
+        ctx.hist("C.edit." + op, sum(1 for c in nc if c["res"] is not None and c["edit"]["list_op"] == op))
+    ctx.hist("C.large_windows(>=1000)", sum(1 for c in nc if min(c["args"][2:5]) >= 1000))
     ctx.sample(nc[len(nc) // 2])
     return cases
 
@@ -357,11 +444,12 @@ def emit_c(ctx, cases):
             res = "None" if c["res"] is None else "(Some " + lst(cfg_lit(*e) for e in c["res"]) + ")"
             acc = "None" if c["accepted"] is None else f"(Some {blit(c['accepted'])})"
             ch = "None" if c["chunk"] is None else f"(Some {zlit(c['chunk'])})"
-            return f"(({a}), {res}, {acc}, {ch})"
+            res2 = "None" if c["res2"] is None else "(Some " + lst(cfg_lit(*e) for e in c["res2"]) + ")"
+            return f"(({a}), {res}, {res2}, {acc}, {ch})"
 
         txt = HEADER + f"""
-Definition cases : list ((Z * Z * Z * Z * Z * Z * Z) * option (list econf) * option bool * option Z) := {lst(one(c) for c in chunk)}.
-Lemma shard_ok : forallb agrees_c cases = true.
+Definition cases : list ((Z * Z * Z * Z * Z * Z * Z) * option (list econf) * option (list econf) * option bool * option Z) := {lst(one(c) for c in chunk)}.
+Lemma shard_ok : forallb agrees_c2 cases = true.
 Proof. vm_compute. reflexivity. Qed.
 """
         paths.append((ctx.new_shard(txt, f"cases_C{k // 400}"), chunk))
@@ -374,12 +462,12 @@ Proof. vm_compute. reflexivity. Qed.
     return paths
 
 
-def oracle_c(c):
+def _oracle_c1(c):
     if c.get("chunk_err"):
         return {"why": "EngineBuilder fails on a valid schedule: " + c["chunk_err"], "case": dict(c)}
     if c["part"] == "C2":
         ds = [d for (_, d, _) in c["cfgs"][1:]]
-        if any(d % c["chunk"] for d in ds):
+        if ds and (c["chunk"] < 1 or any(d % c["chunk"] for d in ds)):
             return {"why": "JIT chunk length does not divide every epoch duration", "cfgs": c["cfgs"], "chunk": c["chunk"]}
         return None
     w, p, i, t, b, thp, thw = c["args"]
@@ -395,16 +483,337 @@ def oracle_c(c):
     warm = [e for e in r if e[0] in (1, 2, 3)]
     if sum(e[1] for e in warm) != w:
         return {"why": "warmup epochs do not sum to the requested warmup length", "args": c["args"], "res": r}
-    shape_ok = (r[0] == (0, 1, 1) and r[1] == (1, i, thw) and r[-1] == (4, p, thp) and r[-2] == (1, t, thw)
-                and all(e[0] == 2 and e[2] == thw for e in r[2:-2]) and len(r) >= 5)
+    r = [tuple(e) for e in r]
+    shape_ok = (len(r) >= 5 and r[0] == (0, 1, 1) and r[1] == (1, i, thw) and r[-1] == (4, p, thp)
+                and r[-2] == (1, t, thw) and all(e[0] == 2 and e[2] == thw for e in r[2:-2]))
+    if not shape_ok:
+        return {"why": "not the documented fast / doubling-slow / fast / posterior pattern", "args": c["args"], "res": r}
     slows = [e[1] for e in r[2:-3]]
     shape_ok = shape_ok and all(s == b * 2 ** k for k, s in enumerate(slows))
     rest = r[-3][1]
     shape_ok = shape_ok and b <= rest < 3 * b * 2 ** len(slows)
     if not shape_ok:
         return {"why": "not the documented fast / doubling-slow / fast / posterior pattern", "args": c["args"], "res": r}
-    if c["chunk"] is not None and any(e[1] % c["chunk"] for e in r[1:]):
-        return {"why": "JIT chunk length does not divide every epoch duration", "args": c["args"], "chunk": c["chunk"]}
+    if c["chunk"] is not None and (c["chunk"] < 1 or any(e[1] % c["chunk"] for e in r[1:])):
+        return {"why": "JIT chunk length does not divide every epoch duration", "args": c["args"], "chunk": c["chunk"],
+                "durations": [e[1] for e in r[1:]]}
+    return None
+
+
+def oracle_c(c):
+    v = _oracle_c1(c)
+    if v or c["part"] != "C" or "res2" not in c or c["res"] is None:
+        return v
+    # the same reading of the property on the second call (after the caller edited the first result)
+    v = _oracle_c1({"part": "C", "args": c["args"], "res": c["res2"], "accepted": _accepts(c["res2"]), "chunk": None})
+    if v is None and c["res2"] != c["res"]:
+        v = {"why": "two calls with identical arguments return different schedules", "args": c["args"],
+             "res": c["res2"]}
+    if v:
+        v["why"] = ("stan_epochs, called again with identical arguments after the caller edited the first "
+                    "result in place: " + v["why"])
+        v["edit"] = c["edit"]
+        v["first_result"] = c["res"]
+    return v
+
+
+def _accepts(res):
+    if res is None:
+        return None
+    EpochConfig, EpochManager, EpochType, _ = _imports()
+    try:
+        EpochManager([EpochConfig(EpochType(t), d, th, None) for (t, d, th) in res])
+        return True
+    except Exception:
+        return False
+
+
+# ---------------------------------------------------------------------------------------------
+# part D: EngineBuilder.set_epochs / set_duration + build()
+def valid_text(cs):
+    """validity of a schedule, read from the property text"""
+    if not cs:
+        return True
+    if cs[0][0] != 0 or cs[0][1] != 1:
+        return False
+    seen_post = False
+    for k, (t, d, th) in enumerate(cs):
+        if (k > 0 and t == 0) or d < 1 or th < 1 or th > d or (t == 4 and d % th != 0):
+            return False
+        if seen_post and t in (1, 2, 3):
+            return False
+        seen_post = seen_post or t == 4
+    return True
+
+
+def big_schedule(rnd, g, n=None, exact=True):
+    """a valid schedule all of whose non-initial durations are multiples of g (gcd exactly g if exact)"""
+    n = n or rnd.randint(1, 5)
+    while True:
+        ms = [rnd.choice([1, 1, 2, 3, 4, 5, 6, 7, 9, 10]) for _ in range(n)]
+        if not exact or math.gcd(*ms) == 1:
+            break
+    types = sorted(rnd.choice([1, 2, 3, 4]) for _ in range(n))      # warmup types (any order) before posterior
+    warm = [t for t in types if t != 4]
+    rnd.shuffle(warm)
+    types = warm + [t for t in types if t == 4]
+    cs = [(0, 1, 1)]
+    for t, m in zip(types, ms):
+        d = g * m
+        divs = [x for x in (1, 1, 2, 3, 5, m, g, d) if d % x == 0]
+        th = rnd.choice(divs) if t == 4 else rnd.choice([1, 1, 2, 7, d])
+        cs.append((t, d, th))
+    return cs
+
+
+def part_d(ctx, rnd):
+    EpochConfig, EpochManager, EpochType, _ = _imports()
+    scheds = [[], [(0, 1, 1)], [(0, 1, 1), (4, 3006, 1)], [(0, 1, 1), (3, 2250, 1), (4, 4500, 1)],
+              [(0, 1, 1), (1, 2002, 1), (2, 3003, 7), (4, 5005, 5)], [(0, 1, 1), (4, 1001, 7), (4, 1001, 1)],
+              [(0, 1, 1), (4, 2250, 1), (3, 2250, 1)], [(3, 2250, 1), (4, 4500, 1)], [(0, 1, 1), (4, 3006, 4)]]
+    for g in BIG_GCDS:
+        scheds.append([(0, 1, 1), (4, g, 1)])
+        for _ in range(3 if ctx.quick else 20):
+            scheds.append(big_schedule(rnd, g))
+    for _ in range(40 if ctx.quick else 600):
+        g = rnd.choice([rnd.randint(1001, 9999), rnd.randint(1001, 9999) | 1, 2 ** rnd.randint(10, 14),
+                        2 ** rnd.randint(1, 4) * rnd.randint(501, 999), rnd.randint(2, 999), 1000, 1024, 2000])
+        cs = big_schedule(rnd, g, exact=rnd.random() < 0.7)
+        if rnd.random() < 0.15:        # break it somewhere
+            k = rnd.randrange(len(cs))
+            t, d, th = cs[k]
+            cs[k] = rnd.choice([(0, d, th), (t, 0, th), (t, d, d + 1), (t, d, 0), (1, d, 1), (4, d, max(2, d - 1))])
+        scheds.append(cs)
+    cases = []
+    for cs in scheds:
+        eps = [EpochConfig(EpochType(t), d, th, None) for (t, d, th) in cs]
+        cases.append({"part": "D", "cfgs": cs, "obs": builder_observe(lambda b: b.set_epochs(eps))})
+    # set_duration: init / base windows are the defaults of stan_epochs (75 / 25)
+    durs = [((1000, 1000), {}), ((1000, 1000, 50), {}), ((200, 100), {"term_duration": 100}),
+            ((199, 100), {"term_duration": 100}), ((19, 10), {"term_duration": 1}), ((150, 10), {}), ((149, 10), {}),
+            ((1000, 1000), {"thinning_posterior": 10, "thinning_warmup": 5}), ((1000, 999), {"thinning_posterior": 10}),
+            ((1000, 1000), {"thinning_warmup": 26}), ((1000, 1000), {"thinning_warmup": 25}),
+            ((400, 0), {}), ((400, 5000), {"thinning_posterior": 5000}), ((5000, 4500, 2250, 2250, 25), {})]
+    for _ in range(40 if ctx.quick else 600):
+        w = rnd.choice([rnd.randint(90, 260), rnd.randint(100, 6000)])
+        t = rnd.choice([50, 50, rnd.randint(0, max(1, w - 90)), 1, 25])
+        thp = rnd.choice([1, 1, 2, 5, 25, rnd.randint(0, 6)])
+        p = rnd.choice([1000, rnd.randint(0, 20), 25 * rnd.randint(1, 400), 4096, max(1, thp) * rnd.randint(1, 300)])
+        thw = rnd.choice([1, 1, 1, 1, 2, 5, 25, rnd.randint(0, 30)])
+        style = rnd.randint(0, 2)
+        if style == 0:
+            durs.append(((w, p, t, thp, thw), {}))
+        elif style == 1:
+            durs.append(((w, p), {"term_duration": t, "thinning_posterior": thp, "thinning_warmup": thw}))
+        else:
+            durs.append(((), {"warmup_duration": w, "posterior_duration": p, "term_duration": t,
+                              "thinning_warmup": thw, "thinning_posterior": thp}))
+    names = ["warmup_duration", "posterior_duration", "term_duration", "thinning_posterior", "thinning_warmup"]
+    for pos, kw in durs:
+        full = {"term_duration": 50, "thinning_posterior": 1, "thinning_warmup": 1}   # documented defaults
+        full.update(dict(zip(names, pos)))
+        full.update(kw)
+        cases.append({"part": "D2", "call": [list(pos), kw], "args": [full[n] for n in names],
+                      "obs": builder_observe(lambda b: b.set_duration(*pos, **kw))})
+    ctx.count(len(cases), len({str(c.get("cfgs", c.get("call"))) for c in cases}))
+    d1 = [c for c in cases if c["part"] == "D"]
+    ctx.hist("D.set_epochs_calls", len(d1))
+    ctx.hist("D.set_epochs_rejected", sum(1 for c in d1 if c["obs"][0] != "ok"))
+    ctx.hist("D.chunk>1000", sum(1 for c in d1 if c["obs"][0] == "ok" and c["obs"][3] > 1000))
+    ctx.hist("D.chunk>1000_where_repeated_halving_would_not_divide", sum(1 for c in d1 if c["obs"][0] == "ok" and c["obs"][3] > 1000
+                                                and _halved(c["obs"][3]) * (c["obs"][3] // _halved(c["obs"][3])) != c["obs"][3]))
+    ctx.hist("D.set_duration_calls", len(cases) - len(d1))
+    ctx.hist("D.set_duration_rejected", sum(1 for c in cases if c["part"] == "D2" and c["obs"][0] != "ok"))
+    ctx.sample(d1[3])
+    return cases
+
+
+def _halved(g):
+    while g > 1000:
+        g //= 2
+    return g
+
+
+def bobs_lit(o):
+    if o[0] != "ok":
+        return "ObsRejected"
+    return f"(ObsOk {lst(cfg_lit(*e) for e in o[2])} {zlit(o[3])})"
+
+
+def emit_d(ctx, cases):
+    d1 = [c for c in cases if c["part"] == "D"]
+    d2 = [c for c in cases if c["part"] == "D2"]
+    out = []
+    for k in range(0, len(d1), 400):
+        part = d1[k:k + 400]
+        body = lst("(" + lst(cfg_lit(*e) for e in c["cfgs"]) + ", " + bobs_lit(c["obs"]) + ")" for c in part)
+        txt = HEADER + f"""
+Definition cases : list (list econf * bobs) := {body}.
+Lemma shard_ok : forallb agrees_bld_epochs cases = true.
+Proof. vm_compute. reflexivity. Qed.
+"""
+        out.append(ctx.new_shard(txt, f"cases_D{k // 400}"))
+    for k in range(0, len(d2), 400):
+        part = d2[k:k + 400]
+        body = lst("((" + ", ".join(zlit(x) for x in c["args"]) + "), " + bobs_lit(c["obs"]) + ")" for c in part)
+        txt = HEADER + f"""
+Definition cases : list ((Z * Z * Z * Z * Z) * bobs) := {body}.
+Lemma shard_ok : forallb agrees_bld_duration cases = true.
+Proof. vm_compute. reflexivity. Qed.
+"""
+        out.append(ctx.new_shard(txt, f"cases_D2_{k // 400}"))
+    return out
+
+
+def oracle_d(c):
+    o = c["obs"]
+    if c["part"] == "D":
+        cs = [tuple(e) for e in c["cfgs"]]
+        v = valid_text(cs)
+        if v != (o[0] == "ok"):
+            return {"why": f"EngineBuilder.set_epochs {'accepts' if o[0] == 'ok' else 'rejects'} a schedule that is "
+                           f"{'valid' if v else 'invalid'}" + ("" if o[0] == "ok" else f" ({o[1]})"), "bld_epochs": cs}
+        if o[0] != "ok":
+            return None
+        if [tuple(e) for e in o[1]] != cs or [tuple(e) for e in o[2]] != cs:
+            return {"why": "the builder / the engine does not hold the schedule that was set", "bld_epochs": cs,
+                    "held": o[1], "engine_gets": o[2]}
+        ds = [d for (_, d, _) in cs[1:]]
+        if ds and (o[3] < 1 or any(d % o[3] for d in ds)):
+            return {"why": "JIT chunk length does not divide every epoch duration", "bld_epochs": cs, "chunk": o[3],
+                    "durations": ds}
+        return None
+    w, p, t, thp, thw = c["args"]
+    adm = (w >= 20 and 75 + t + 25 <= w and min(t, p) >= 1 and 1 <= thw <= min(75, t, 25) and thp >= 1 and p % thp == 0)
+    if not adm:
+        return None
+    if o[0] != "ok":
+        return {"why": "EngineBuilder.set_duration rejects an admissible argument combination: " + o[1],
+                "bld_duration": c["call"]}
+    r = [tuple(e) for e in o[2]]
+    if [tuple(e) for e in o[1]] != r or not valid_text(r):
+        return {"why": "set_duration leaves the builder with an invalid schedule", "bld_duration": c["call"], "res": r}
+    if (sum(e[1] for e in r if e[0] in (1, 2, 3)) != w or r[-1] != (4, p, thp) or sum(1 for e in r if e[0] == 4) != 1
+            or len(r) < 5 or r[1] != (1, 75, thw) or r[-2] != (1, t, thw)):
+        return {"why": "set_duration: warmup epochs do not sum to the request / fast windows are not 75 and "
+                       "term_duration with the warmup thinning / not one posterior epoch of the requested length", "bld_duration": c["call"], "res": r}
+    if o[3] < 1 or any(e[1] % o[3] for e in r[1:]):
+        return {"why": "JIT chunk length does not divide every epoch duration", "bld_duration": c["call"],
+                "chunk": o[3], "durations": [e[1] for e in r[1:]]}
+    return None
+
+
+# ---------------------------------------------------------------------------------------------
+# part E: EpochState
+def state_run(cf, n, tb, bys):
+    EpochConfig, _, EpochType, _ = _imports()
+    s = EpochConfig(EpochType(cf[0]), cf[1], cf[2], None).to_state(n, tb)
+    for by in bys:
+        s.advance_time(by)
+    return (int(s.nth_epoch), int(s.time), int(s.time_before_epoch), int(s.time_in_epoch), int(s.time_left()))
+
+
+def part_e(ctx, rnd):
+    cases = []
+    for _ in range(150 if ctx.quick else 1500):
+        d = rnd.choice([1, 2, 25, 1000, 2250, rnd.randint(1, 10000)])
+        cf = (rnd.randint(0, 4), d, rnd.choice([1, 2, d]))
+        n, tb = rnd.randint(0, 9), rnd.choice([0, 1, rnd.randint(0, 20000)])
+        kind = rnd.random()
+        if kind < 0.4:      # the engine's chunk loop: duration // chunk steps of chunk
+            divs = [x for x in range(1, min(d, 60) + 1) if d % x == 0] + [d]
+            ch = rnd.choice(divs)
+            bys = [ch] * min(d // ch, 40)
+        else:
+            bys = [rnd.choice([1, 1, 2, 25, rnd.randint(0, 500)]) for _ in range(rnd.randint(0, 8))]
+        cases.append({"part": "E", "state": [cf, n, tb, bys], "obs": state_run(cf, n, tb, bys)})
+    ctx.count(len(cases), len({str(c["state"]) for c in cases}))
+    ctx.hist("E.epoch_state_runs", len(cases))
+    ctx.hist("E.run_to_end_of_epoch", sum(1 for c in cases if c["obs"][4] == 0))
+    return cases
+
+
+def emit_e(ctx, cases):
+    def one(c):
+        cf, n, tb, bys = c["state"]
+        o = c["obs"]
+        return (f"({cfg_lit(*cf)}, {natlit(n)}, {zlit(tb)}, {lst(zlit(b) for b in bys)}, "
+                f"({natlit(o[0])}, {zlit(o[1])}, {zlit(o[2])}, {zlit(o[3])}, {zlit(o[4])}))")
+    txt = HEADER + f"""
+Definition cases : list (econf * nat * Z * list Z * (nat * Z * Z * Z * Z)) := {lst(one(c) for c in cases)}.
+Lemma shard_ok : forallb agrees_state cases = true.
+Proof. vm_compute. reflexivity. Qed.
+"""
+    return ctx.new_shard(txt, "cases_E")
+
+
+def oracle_e(c):
+    cf, n, tb, bys = c["state"]
+    exp = (n, tb + sum(bys), tb, sum(bys), cf[1] - sum(bys))
+    if tuple(c["obs"]) != exp:
+        return {"why": "EpochState time bookkeeping (to_state / advance_time / time_left) is wrong", "state": c["state"],
+                "got": list(c["obs"]), "expected": list(exp)}
+    return None
+
+
+# ---------------------------------------------------------------------------------------------
+# part F: real engines
+def engine_run(cs):
+    """build a real engine for the schedule and sample all epochs; number of posterior draws per chain,
+    or a string describing the exception"""
+    import jax.numpy as jnp
+    import liesel.goose as gs
+    EpochConfig, _, EpochType, _ = _imports()
+    try:
+        b = gs.EngineBuilder(seed=1, num_chains=1)
+        b.set_model(gs.DictInterface(lambda ms: -0.5 * ms["x"] ** 2))
+        b.set_initial_values({"x": jnp.array(0.5)})
+        b.add_kernel(gs.RWKernel(["x"]))
+        b.set_epochs([EpochConfig(EpochType(t), d, th, None) for (t, d, th) in cs])
+        b.show_progress = False
+        e = b.build()
+        e.sample_all_epochs()
+        if not any(t == 4 for (t, _, _) in cs):
+            return 0
+        return int(e.get_results().get_posterior_samples()["x"].shape[1])
+    except Exception as ex:
+        return f"{type(ex).__name__}: {ex}"
+
+
+def part_f(ctx, rnd):
+    scheds = [[(0, 1, 1), (3, 2250, 1), (4, 4500, 1)], [(0, 1, 1), (4, 3006, 1)],
+              [(0, 1, 1), (1, 2002, 7), (4, 1001, 7)], [(0, 1, 1), (1, 30, 1), (3, 45, 1), (4, 60, 2)]]
+    for _ in range(2 if ctx.quick else 24):
+        g = rnd.choice(BIG_GCDS + [rnd.randint(1001, 3000) | 1])
+        scheds.append(big_schedule(rnd, g, n=rnd.randint(1, 3)))
+    cases = [{"part": "F", "engine": cs, "obs": engine_run(cs)} for cs in scheds]
+    ctx.count(len(cases), len({str(c["engine"]) for c in cases}))
+    ctx.hist("F.engine_runs", len(cases))
+    ctx.hist("F.engine_runs_chunk>1000", sum(1 for c in cases if math.gcd(*[d for (_, d, _) in c["engine"][1:]]) > 1000))
+    return cases
+
+
+def emit_f(ctx, cases):
+    body = lst("(" + lst(cfg_lit(*e) for e in c["engine"]) + ", "
+               + ("None" if isinstance(c["obs"], str) else f"(Some {zlit(c['obs'])})") + ")" for c in cases)
+    txt = HEADER + f"""
+Definition cases : list (list econf * option Z) := {body}.
+Lemma shard_ok : forallb agrees_engine cases = true.
+Proof. vm_compute. reflexivity. Qed.
+"""
+    return ctx.new_shard(txt, "cases_F")
+
+
+def oracle_f(c):
+    cs = [tuple(e) for e in c["engine"]]
+    if not valid_text(cs) or len(cs) < 2:
+        return None
+    if isinstance(c["obs"], str):
+        return {"why": "a valid schedule is accepted by the builder but the engine cannot sample it: " + c["obs"],
+                "engine": cs}
+    exp = sum(d // th for (t, d, th) in cs if t == 4)
+    if c["obs"] != exp:
+        return {"why": f"the engine stored {c['obs']} posterior draws, the schedule asks for {exp}", "engine": cs}
     return None
 
 
@@ -421,6 +830,9 @@ def run(ctx) -> int:
     a = part_a(ctx)
     bcases = part_b(ctx, rnd)
     ccases = part_c(ctx, rnd)
+    dcases = part_d(ctx, rnd)
+    ecases = part_e(ctx, rnd)
+    fcases = part_f(ctx, rnd)
     fails = []
     for c in ccases:   # builder errors cannot be emitted as numbers
         if isinstance(c.get("chunk"), str):
@@ -437,20 +849,45 @@ def run(ctx) -> int:
         r = oracle_c(c)
         if r:
             fails.append(r)
+    for cases, orc in ((dcases, oracle_d), (ecases, oracle_e), (fcases, oracle_f)):
+        for c in cases:
+            r = orc(c)
+            if r:
+                fails.append(r)
+    # one violation per distinct reason first, so that independent defects are all reported
+    seen, ordered = set(), []
+    for f in fails:
+        key = f["why"].split(":")[0][:60]
+        if key not in seen:
+            seen.add(key)
+            ordered.append(f)
+    fails = ordered + [f for f in fails if f not in ordered]
     disagree = []
     if built:
         pa = emit_a(ctx, a)
         pb = emit_b(ctx, bcases)
         pcs = emit_c(ctx, ccases)
-        res = ctx.compile_shards([pa, pb] + [p for p, _ in pcs])
+        more = emit_d(ctx, dcases) + [emit_e(ctx, ecases), emit_f(ctx, fcases)]
+        res = ctx.compile_shards([pa, pb] + [p for p, _ in pcs] + more)
         for p, (ok, out) in res.items():
             if not ok:
                 common.log(f"shard {p} failed:\n{out[-1200:]}")
                 ctx.broken.append(f"correspondence lemma shard_ok in {p.split('/')[-1]}")
                 disagree.append(p)
+    ctx.tested_not_proved.append("stan_epochs is a pure function of its arguments: every call is repeated after an in-place "
+                                 "edit of the returned list and EpochConfig objects; both results must equal the model")
+    ctx.tested_not_proved.append(f"{len(fcases)} real engines (RWKernel, one chain) built by EngineBuilder sample all epochs; "
+                                 "posterior draw count = sum duration/thinning; ties the chunk-loop model run_epoch to engine.py")
+    ctx.tested_not_proved.append("the chunk length is observed as the jitted_sample_duration argument EngineBuilder.build() "
+                                 "passes to the Engine constructor (constructor replaced by a spy)")
+    ctx.assume.append("C16_stan_valid_and_sums / C16_builder_set_duration_ok: admissible arguments (20 <= w, i+t+b <= w, "
+                      "1 <= i,t,b,p, 1 <= thw <= min(i,t,b), 1 <= thp | p); set_duration fixes i = 75, b = 25")
+    ctx.assume.append("C16_chunk_positive / C16_builder_epochs_run_to_end: the schedule is valid and has a non-initial epoch")
     ctx.cov["rule"] = ("A: all sequences over the stated alphabet up to max_len (exhaustive; non-trivial = accepted ones, "
                        "each distinct); B: random append/next/has_more interleavings (distinct op lists); "
-                       "C: stan_epochs border grid + random arguments, distinct argument tuples; C2: random valid schedules")
+                       "C: stan_epochs border grid + random arguments (each call repeated after an in-place edit of its result), "
+                       "distinct argument tuples; C2: random valid schedules; D: builder set_epochs (large-gcd strata, "
+                       "distinct schedules) / set_duration (distinct calls); E: EpochState runs; F: real engine runs")
     for f in fails[:3]:
         ctx.violation(f["why"], f, True, None)
     if (disagree or not thm_ok or forb) and not fails:
@@ -501,24 +938,43 @@ def replay(rp) -> int:
         verdict = oracle_b({"ops": ops, "outs": _run_ops(ops)})
     elif "args" in r:
         a = tuple(r["args"])
-        try:
-            eps = stan_epochs(*a)
-            res = [(int(e.type), int(e.duration), int(e.thinning)) for e in eps]
-        except ValueError:
-            eps, res = None, None
+        edit = r.get("edit")
+        eps, res, res2 = stan_twice(a, edit)
         acc, chunk = None, None
         if eps is not None:
-            try:
-                EpochManager(eps)
-                acc = True
-            except RuntimeError:
-                acc = False
+            acc = _accepts(res)
             if acc:
                 chunk = builder_chunk_safe(eps)
         c = {"part": "C", "args": a, "res": res, "accepted": acc, "chunk": chunk}
+        if edit is not None:
+            c.update({"edit": edit, "res2": res2})
+            print(f"stan_epochs{a} -> {res}; after in-place edit {edit} of that list, the same call -> {res2}")
         if isinstance(chunk, str):
             c["chunk_err"], c["chunk"] = chunk, None
         verdict = oracle_c(c)
+    elif "bld_epochs" in r:
+        cs = [tuple(c) for c in r["bld_epochs"]]
+        eps = [EpochConfig(EpochType(t), d, th, None) for (t, d, th) in cs]
+        obs = builder_observe(lambda b: b.set_epochs(eps))
+        print(f"EngineBuilder.set_epochs({cs}); build() -> {obs}")
+        verdict = oracle_d({"part": "D", "cfgs": cs, "obs": obs})
+    elif "bld_duration" in r:
+        pos, kw = r["bld_duration"]
+        names = ["warmup_duration", "posterior_duration", "term_duration", "thinning_posterior", "thinning_warmup"]
+        full = {"term_duration": 50, "thinning_posterior": 1, "thinning_warmup": 1}
+        full.update(dict(zip(names, pos)))
+        full.update(kw)
+        obs = builder_observe(lambda b: b.set_duration(*pos, **kw))
+        print(f"EngineBuilder.set_duration(*{pos}, **{kw}); build() -> {obs}")
+        verdict = oracle_d({"part": "D2", "call": [pos, kw], "args": [full[n] for n in names], "obs": obs})
+    elif "state" in r:
+        cf, n, tb, bys = r["state"]
+        verdict = oracle_e({"part": "E", "state": [tuple(cf), n, tb, bys], "obs": state_run(tuple(cf), n, tb, bys)})
+    elif "engine" in r:
+        cs = [tuple(c) for c in r["engine"]]
+        obs = engine_run(cs)
+        print(f"engine for schedule {cs}: sample_all_epochs -> {obs}")
+        verdict = oracle_f({"part": "F", "engine": cs, "obs": obs})
     elif "cfgs" in r:
         cs = [tuple(c) for c in r["cfgs"]]
         eps = [EpochConfig(EpochType(t), d, th, None) for (t, d, th) in cs]
